@@ -329,6 +329,19 @@ import (
 func DotIntToStr(i int) string { tr.Hit("DotIntToStr"); return "d" + tr.Itoa(i) }
 
 func DotFinalize(d *ext.Inner2, s *ext.Inner) { tr.Arg("DotFinalize", d, s); tr.Hit("DotFinalize") }
+
+// DotS / DotD: operand types that the setup file names without qualifier, through its dot import.
+type DotS struct {
+	A int
+	B string
+	C []int
+}
+
+type DotD struct {
+	A int
+	B string
+	C []int
+}
 `
 
 // DotFuncs are the names that reach the setup file through its dot import of package dotfn.
